@@ -26,7 +26,7 @@ EXTENDS Naturals, Sequences, FiniteSets, TLC
 CONSTANTS MimePolicy, MaxOps
 
 Names  == {"a", "d/b.x", "d/b.y"}     \* two names that differ only in their last extension
-Key    == "k"
+Key    == "10um_iso-2.5"      \* a scale key with an underscore, a dash and a dot (all legal)
 Chunks == {<<0, 2, 0, 2, 0, 1>>, <<2, 3, 0, 2, 0, 1>>}
 Data   == {0, 1, 2}                  \* abstract payloads; 0 is the empty byte string
 Mimes  == {"application/octet-stream", "application/json", "image/jpeg"}
